@@ -139,6 +139,8 @@ type Interp struct {
 	undefN       int
 	evlog        []string
 	live         []*model
+	ghost        map[int]*Term
+	tier         string
 	all          []*model
 	noModelCache bool
 	noMerge      bool
